@@ -148,5 +148,5 @@ func loaderSequences(r *ev.Run, depth int, keyPrefix string, meta, replay bool) 
 }
 
 func withTimeoutShort(f func()) (bool, interface{}) {
-	return withTimeout(10e9, f)
+	return withTimeout(60e9, f)
 }
